@@ -29,12 +29,17 @@ import pylocks2coq  # noqa: E402
 
 PROP = 'C15'
 REQUIRES = ['Common.ListX', 'Conc.Lang', 'gen.BufferLockGen']
-RULE = ('translator self-check: every method of SignalBuffer (table sets == bytecode attribute names; run-time observed '
-        'accesses per frame within the table sets; fields seen changing within the computed mutable set). Schedule exploration of '
-        'the real class (5 writer x 11 reader operations on two initial states; quick: every third pair, <= 1 pre-emption; thorough: <= 2 '
-        'pre-emptions and every 11th pair <= 3): all line-granular schedules of the two threads. '
-        'Non-trivial: a method that touches a mutable field or calls another method; an exploration in which the reader was '
-        'blocked on the lock or observed both serial outcomes.')
+RULE = ('translator self-check: every method of SignalBuffer (table sets vs bytecode attribute names + reported alias extras; run-time '
+        'observed accesses per frame within the table sets; fields seen changing within the computed mutable set; no read hands out '
+        'memory shared with the ring buffer, statically (alias analysis of return values) and dynamically (np.shares_memory)). '
+        'Schedule exploration of the real class: 11 writer operations (append 1 / 2 / exactly cap / cap+2; invalidate_samples inside / at '
+        'the lower bound / at the upper bound (no-op); invalidate(t) float and NumPy-int; resize grow / shrink) x 19 reader operations '
+        '(get_range_samples, get_range with None / one-sided / int / NumPy-scalar bounds; get_latest with and without fill incl. fill 0.0 '
+        'and ub != 0; get_range_filled overlapping and entirely outside; the four bound queries) x 6 initial states (empty, partly filled, '
+        'full, just invalidated, two channels, resized); switch points: every source line and every return of a buffer.py frame; quick: '
+        '1/9 of the pairs covering every writer x reader method combination, <= 1 pre-emption, plus 7 writer x writer pairs; thorough: every '
+        'pair <= 2 pre-emptions, every 10th <= 3, writer x writer on 3 states. Non-trivial: a method that touches a mutable field or calls '
+        'another method; an exploration in which a thread was blocked on the lock or both serial outcomes were observed.')
 TRUSTED = ['translate/pylocks2coq.py (AST -> lock-structure table; fail-closed: unclassifiable statements become SOpaque, which no '
            'discipline accepts)',
            'coq/Conc/Lang.v `den`: the meaning given to the table (call inlining, statement parts, return/raise/exception edges leave '
@@ -45,8 +50,8 @@ ASSUMPTIONS = ['atomicity unit = one source statement part (a statement with n s
                'between); CPython switches threads between BYTECODES, and NumPy may release the GIL inside a copy: a data race inside one '
                'statement is outside the model.  The lock is modelled as mutual exclusion with re-entrancy (threading.RLock).',
                'each statement part respects its declared field sets (footprint_ok): parts that mention no mutable shared field neither '
-               'change nor depend on the shared store.  Aliasing through locals (e.g. the ndarray VIEW that get_range_samples returns, '
-               'which a later append shifts in place) is not tracked: a read is compared by the value it has when it returns.',
+               'change nor depend on the shared store.  '
+               'Aliasing through locals is tracked flow-insensitively by the translator (conservative); a read is compared by the value the caller holds when it runs next, and separately by the value at the moment of return (a difference = a returned view).',
                'operation set = the property\'s writers/readers plus every other public method; time_to_index / samples_to_index called '
                'directly are helpers outside the set (they read two mutable fields under no lock)',
                'mutable shared field = any self._x assigned (also through subscripts, method calls on it, or being passed to a foreign '
@@ -216,11 +221,21 @@ class _Ctl:
         self.depth = [0, 0]
         self.ret_snap = [None, None]
         self.lock = _Lock(self)
+        self.trace = []                 # (thread, other thread enabled too, where) per step
+        self.quantum = [1, 1]           # steps the thread may take before handing control back (None: until it
+                                        # blocks or finishes); consecutive steps of one thread need no hand-off
 
     def current(self):
         return self.tids[threading.get_ident()]
 
     def pause(self, me, status):
+        if status == 'ready':
+            q = self.quantum[me]
+            if q is None or q > 1:
+                if q is not None:
+                    self.quantum[me] = q - 1
+                self.trace.append((me, self.enabled(1 - me), self.where[me]))
+                return
         self.status[me] = status
         self.main.release()
         self.sem[me].acquire()
@@ -353,22 +368,27 @@ def _run(scn, prefix):
           threading.Thread(target=body, args=(1, scn['r']), daemon=True)]
     for t in th:
         t.start()
-    trace, cur, step = [], None, 0
+    trace, cur = ctl.trace, None
     deadlock = False
     while True:
         en = [t for t in (0, 1) if ctl.enabled(t)]
         if not en:
             deadlock = any(s != 'done' for s in ctl.status)
             break
+        step = len(trace)
         if step < len(prefix) and prefix[step] in en:
             t = prefix[step]
+            k = 1
+            while step + k < len(prefix) and prefix[step + k] == t:
+                k += 1
+            q = None if step + k >= len(prefix) else k      # past the prefix the running thread just continues
         elif cur in en:
-            t = cur
+            t, q = cur, None
         else:
-            t = en[0]
+            t, q = en[0], None
         trace.append((t, len(en) == 2, ctl.where[t]))
         cur = t
-        step += 1
+        ctl.quantum[t] = q
         ctl.sem[t].release()
         ctl.main.acquire()
     if deadlock:
@@ -514,7 +534,7 @@ def _ww_pairs():
     """writer x writer (the final state must equal one of the two serial orders)"""
     for st in ('full', 'part', 'multi'):
         ws = _writers(st)
-        for a, b in ((1, 4), (1, 9), (7, 9), (3, 5), (4, 10)):
+        for a, b in ((1, 4), (1, 9), (7, 9), (3, 5), (4, 10), (9, 9), (9, 10)):
             yield _scn(st, ws[a], ws[b])
 
 
@@ -526,11 +546,11 @@ def cases(tier, rng):
     yield {'k': 'mutable'}
     yield {'k': 'retalias'}
     if tier == 'quick':
-        # a covering selection (about 1/19 of all pairs): every state, every writer and every reader variant (argument
+        # a covering selection (1/9 of all pairs): every state, every writer and every reader variant (argument
         # kinds included) several times, and every writer METHOD x reader METHOD combination at least once
         sel, combos = [], set()
         for (si, wi, ri), scn in _pairs():
-            if (6 * wi + 8 * ri + si) % 19 == 0:
+            if (2 * wi + 3 * ri + si) % 9 == 0:
                 sel.append(scn)
                 combos.add((scn['w'][0], scn['r'][0]))
         for (si, wi, ri), scn in _pairs():
@@ -542,10 +562,10 @@ def cases(tier, rng):
     else:
         for (si, wi, ri), scn in _pairs():
             i = (si * 11 + wi) * 19 + ri
-            yield dict(scn, k='explore', bound=(3 if i % 57 == 0 else 2 if i % 4 == 0 else 1))
-    if tier != 'quick':
-        for scn in _ww_pairs():
-            yield dict(scn, k='explore', bound=2)
+            yield dict(scn, k='explore', bound=(3 if i % 10 == 0 else 2))
+    for scn in _ww_pairs():
+        if tier != 'quick' or scn['state'] == 'full':
+            yield dict(scn, k='explore', bound=(1 if tier == 'quick' else 2))
 
 
 _OBS = None
@@ -572,7 +592,10 @@ def impl(case):
         # static: operations whose return value may reference a mutable field; dynamic: reads that really hand out
         # memory shared with the buffer
         info = _info()
-        mut = set(info['mutable_fields'])
+        probe = _make(STATES['full'])
+        scalars = (int, float, complex, str, bytes, bool, type(None), tuple, frozenset, np.generic)
+        # only fields that hold an object that can be changed in place matter (an int handed out is a snapshot)
+        mut = {f for f in info['mutable_fields'] if not isinstance(vars(probe).get(f), scalars)}
         static = {m: sorted(set(f) & mut) for m, f in info['returns_alias'].items()
                   if set(f) & mut and not m.startswith('_')}
         dyn = []
@@ -724,6 +747,7 @@ def search(tier, rng):
         for st in STATES:
             for r in _readers(st):
                 pairs.append(_scn(st, w, r))
+    pairs += list(_ww_pairs())
     pairs.sort(key=lambda p: -((p['w'][0] in failing) + (p['r'][0] in failing)))
     for bound in ((1, 2) if tier == 'quick' else (1, 2, 3)):
         for scn in pairs:
